@@ -9,7 +9,7 @@ from ..runner import Acc, watchdog, Hang
 
 ID = 'C10'
 LEVEL = 'model_checking'
-RULE = ('(before a text outside the language is compiled, the text obtained by gluing its blank-separated words together - often a valid program - is compiled, so that nothing remembered from one text can vouch for another) seed sentences: EVERY clause or directive of the documented grammar with <= N tokens over one representative '
+RULE = ('(deep: a term nested 100..1000 levels - compound, list, parentheses, list tails - alone, between facts, as a rule head, in a rule body, and with one token too many: the compilation raises or every clause head is defined, never only the clauses behind the deep one) (before a text outside the language is compiled, the text obtained by gluing its blank-separated words together - often a valid program - is compiled, so that nothing remembered from one text can vouch for another) seed sentences: EVERY clause or directive of the documented grammar with <= N tokens over one representative '
         'per token class, every two-clause program built from the clauses of <= 4 tokens, and the repository\'s sample '
         'files; for each seed EVERY single edit: delete / duplicate token i, swap tokens i,i+1, replace token i by the '
         'other members of its class, insert each of the 21 token kinds and each of 32 foreign character sequences (ASCII and non-ASCII look-alikes of lexicon characters) at '
@@ -211,17 +211,91 @@ def process(acc, index, tag, text, calibrate):
             acc.info['ref_rejects_but_strict_antlr_accepts'].append(text)
 
 
+# ---- nesting beyond what the parser can take: all or nothing ----------------------------------------
+# A clause nested deeper than the parser's stack allows makes the compilation fail - or, if the compiler
+# copes, every clause of the text is compiled; never only the part of the text behind the deep clause.
+DEEP_LEVELS = [100, 200, 300, 330, 360, 400, 500, 700, 1000]
+DEEP_SHAPES = [('f(', ')'), ('[', ']'), ('(', ')'), ('[a|', ']')]
+DEEP_CONTEXTS = [('alone', '%s', ['p/1']), ('between-facts', 'a(1).\n%s\nb(2).\n', ['a/1', 'p/1', 'b/1']),
+                 ('rule-head', 'a(1).\n%s', ['a/1', 'p/1', 'b/1']), ('rule-body', 'a(1).\nq(X) :- r(X), %s\nb(2).\n', ['a/1', 'q/1', 'b/1']),
+                 ('one-token-too-many', 'a(1).\n%s', None)]
+
+
+def deep_cases():
+    idx = 0
+    for lv in DEEP_LEVELS:
+        for si in range(len(DEEP_SHAPES)):
+            for ci in range(len(DEEP_CONTEXTS)):
+                yield idx, (lv, si, ci)
+                idx += 1
+
+
+def deep_text(case):
+    lv, si, ci = case
+    o, c = DEEP_SHAPES[si]
+    term = o * lv + 'a' + c * lv
+    ctx, tpl, heads = DEEP_CONTEXTS[ci]
+    if ctx == 'rule-head':
+        inner = 'p(%s) :- q(2).\nb(3).\n' % term
+    elif ctx == 'rule-body':
+        inner = 'p(%s).' % term
+    elif ctx == 'one-token-too-many':
+        inner = 'p(%s) :- :- q(2).\nb(3).\n' % term
+    else:
+        inner = 'p(%s).' % term
+    return tpl % inner, heads
+
+
+def check_deep(case):
+    import sys
+    text, heads = deep_text(case)
+    old = sys.getrecursionlimit()
+    try:
+        # under the interpreter's DEFAULT limit (the reference grammar raises it for its own use)
+        sys.setrecursionlimit(1000)
+        out = impl.compile_text(text)
+    except Exception as e:  # noqa: BLE001
+        return ('ok', None, None, ('deep', 'raised', type(e).__name__))
+    finally:
+        sys.setrecursionlimit(old)
+    what = '%d levels of %s...%s, context %s' % (case[0], DEEP_SHAPES[case[1]][0], DEEP_SHAPES[case[1]][1], DEEP_CONTEXTS[case[2]][0])
+    if heads is None:
+        return ('violation', 'compiled-text-outside-grammar:deep', '%s: the text (not in the language: ":- :-") was compiled; text starts %r' % (what, text[:60]), None)
+    try:
+        got = defined_functions(out)
+    except (SyntaxError, RecursionError, MemoryError, ValueError):
+        return ('ok', None, None, ('deep', 'compiled', 'output-not-python(C11)'))
+    want = sorted(set(h.replace('/', '_') for h in heads))
+    if got != want:
+        return ('violation', 'clauses-omitted-or-altered:deep', '%s: clause heads %s, functions defined by the output %s; text starts %r' % (what, want, got, text[:60]), None)
+    return ('ok', None, None, ('deep', 'compiled', tuple(want)))
+
+
 NSH = 64
 
 
 def plan(tier):
-    return [(tier, kind, k, NSH) for kind in ('seeds', 'pairs', 'samples') for k in range(NSH)]
+    return [(tier, kind, k, NSH) for kind in ('seeds', 'pairs', 'samples') for k in range(NSH)] + [(tier, 'deep', k, 4) for k in range(4)]
 
 
 def run_shard(spec):
     tier, kind, k, n = spec
     acc = Acc()
     maxtok = 7 if tier == 'quick' else 9
+    if kind == 'deep':
+        for idx, case in deep_cases():
+            if idx % n != k:
+                continue
+            acc.n['evaluations'] += 1
+            acc.n['validated'] += 1
+            acc.n['transitions'] += 1
+            st, sig, detail, outcome = check_deep(case)
+            if st == 'violation':
+                acc.violation(sig, (3, idx), {'deep': list(case)}, detail, key='deep|%s' % (list(case),))
+            else:
+                acc.outcome(outcome)
+                acc.n['nontrivial'] += 1
+        return acc
     if kind == 'seeds':
         sd = seeds(maxtok)
         others = [' '.join(spell_tokens(s)) for s in seeds(4)]
@@ -265,6 +339,9 @@ def run_shard(spec):
 
 
 def replay(case):
+    if 'deep' in case:
+        st, sig, detail, _ = check_deep(tuple(case['deep']))
+        return [(sig, detail)] if st == 'violation' else []
     st, sig, detail, _ = check_text(case['text'])
     if st == 'violation':
         return [(sig, detail)]
